@@ -188,13 +188,20 @@ def _run(ctx):
     # ---------------------------------------------------------------- (B) the code
     seed = str(ctx.seed)
     sim = ["-sim", os.path.join(simdir, "b")]
-    n = dict(general=16, mem=50, iso=8) if quick else dict(general=150, mem=500, iso=40)
+    n = dict(general=16, mem=50, iso=8, sm=24) if quick else dict(general=150, mem=500, iso=40, sm=240)
     stages = [
         # name, engine, args, strict
         ("pebble-general", "pebble", sim + ["-random", str(n["general"]), "-len", "30", "-seed", seed], True),
         ("mem-general", "mem", sim + ["-random", str(n["mem"]), "-len", "36", "-seed", seed, "-rewindfetch", "-keep", str(2 + ctx.seed % 2)], True),
         # regression stage for ee3b302 (entries applied while the checkpoint is still being written): strict
         ("pebble-inflight", "pebble", ["-random", str(n["iso"]), "-len", "24", "-seed", str(ctx.seed + 40)], True),
+        # snapshots through the state machine's own entry point (kvStoreSM.GetSnapshot, what the node's
+        # apply loop calls) with the next entries applied at once
+        ("mem-viasm", "mem", ["-viasm", "-random", str(n["sm"]), "-len", "30", "-seed", str(ctx.seed + 60)], True),
+        ("pebble-viasm", "pebble", ["-viasm", "-random", str(max(4, n["sm"] // 3)), "-len", "30", "-seed", str(ctx.seed + 61)], True),
+        # large sst files with fixed-length values, restore - rewrite - restore (files of the same name,
+        # size and tail but other content in the data directory and in a checkpoint)
+        ("pebble-bigsst", "pebble", ["-bigsst", "1" if quick else "6", "-seed", seed], True),
         # isolate stage of the open finding ckpt-local-fetch-overwrites-hardlink; no entries in flight
         # here so that a failure cannot be attributed to anything but the re-used links
         ("pebble-isolate-rewindfetch", "pebble", ["-random", str(n["iso"]), "-len", "36", "-seed", seed, "-inflight=false", "-rewindfetch"], True),
@@ -257,6 +264,10 @@ def _run(ctx):
         "guarantees it by program order, pebble since ee3b302 (notify after Checkpoint() has returned); both are exercised with "
         "entries applied as soon as WaitReady returns. It remains an ASSUMPTION for RocksDB (20 ms timer in engine/rockeng.go), "
         "which is only available through a dependency shim and is informational here",
+        "the data engines are opened with their write-ahead log enabled (the default). With the configuration option "
+        "disable_wal a pebble checkpoint misses every write that is still in the memtable (pebbleEngCheckpoint.Save does not "
+        "flush; observed with `ckptsim -nowal`: Backup(2,7) of 6 records restores an empty store) - a non-default "
+        "configuration, not part of the verdict",
         "the engine's cut itself is not observable: the bnotify event is validated as BackupCut followed by BackupNotify",
         "checkpoints are fetched through the local-copy path of common.RunFileSync (cp -rp); the rsync path needs a daemon and is not exercised",
         "mem and pebble are the deciding engines; RocksDB is only available through a dependency shim and is informational",
